@@ -238,6 +238,38 @@ def harness_facts(split=False):
     return out
 
 
+def run_witness(rep, rule):
+    """compile_fail witnesses + compiling twins (thorough tier): cargo +nightly test --doc on /verif/witness"""
+    wdir = os.path.join(VERIF, 'witness')
+    with Lock('witness'):
+        shutil.copyfile(os.path.join(REPO, 'Cargo.lock'), os.path.join(wdir, 'Cargo.lock'))
+        repo_lock = open(os.path.join(REPO, 'Cargo.lock'), 'rb').read()
+        env = dict(os.environ, CARGO_NET_OFFLINE='true', CARGO_TARGET_DIR=os.path.join(CACHE, 'witness-target'))
+        try:
+            r = sh('cargo +nightly test --doc --offline', cwd=wdir, env=env)
+        finally:
+            with open(os.path.join(REPO, 'Cargo.lock'), 'wb') as f:
+                f.write(repo_lock)
+    import re as _re
+    fails = _re.findall(r'test src/lib.rs - \(line (\d+)\) - compile fail \.\.\. (\w+)', r.stdout)
+    twins = _re.findall(r'test src/lib.rs - \(line (\d+)\) \.\.\. (\w+)', r.stdout)
+    if len(fails) < 4 or len(twins) < 4:
+        rep.bad(rule, rule + '|witness run', '', 'witness doctests did not run as expected:\n' + r.stdout[-1500:])
+        return
+    for ln, res in sorted(fails, key=lambda x: int(x[0])):
+        key = '%s|compile_fail witness at witness/src/lib.rs:%s' % (rule, ln)
+        if res == 'ok':
+            rep.ok(rule, key, 'the violating program is rejected by rustc with the expected error code')
+        else:
+            rep.bad(rule, key, 'witness/src/lib.rs:' + ln, 'a program that must not type-check now compiles (or fails with a different error): the type-level protection is gone')
+    for ln, res in sorted(twins, key=lambda x: int(x[0])):
+        key = '%s|compiling twin at witness/src/lib.rs:%s' % (rule, ln)
+        if res == 'ok':
+            rep.ok(rule, key, 'the twin differing only by the offending line compiles')
+        else:
+            rep.bad(rule, key, 'witness/src/lib.rs:' + ln, 'the compiling twin no longer builds: the witness would pass for the wrong reason')
+
+
 def glob_out(target):
     import glob
     return [d for d in glob.glob(os.path.join(target, 'debug', 'build', 'vgen-*', 'out')) if os.path.exists(os.path.join(d, 'mods.rs'))]
